@@ -94,7 +94,8 @@ func importL1(e *henv.L1, gs *ophosttypes.GenesisState) *henv.L1 {
 	n.Ctx = n.Ctx.WithBlockHeight(e.Ctx.BlockHeight()).WithBlockTime(e.Ctx.BlockTime())
 	n.AK.InitGenesis(n.Ctx, *e.AK.ExportGenesis(e.Ctx))
 	n.BK.InitGenesis(n.Ctx, e.BK.ExportGenesis(e.Ctx))
-	n.K.InitGenesis(n.Ctx, gs)
+	// genesis is applied by InitChain, whose context has block height 0; the first block follows at the chain's height
+	n.K.InitGenesis(n.Ctx.WithBlockHeight(0), gs)
 	return n
 }
 
